@@ -5,6 +5,8 @@ import LinfaSpec.Proofs.KernelReal
 import LinfaSpec.Proofs.Sparse
 import LinfaSpec.Proofs.Hier
 import LinfaSpec.Proofs.SparseSum
+import LinfaSpec.Proofs.SparseDot
+import LinfaSpec.Proofs.HierSingle
 
 /-!
 # C06 — Kernel matrices hold the kernel function; hierarchical clustering partitions
@@ -205,6 +207,87 @@ theorem sToDense_entry (m : Method α) (X : List (List α)) (k : Nat) (nb : List
 end
 
 
+
+section
+variable {α : Type} [Field α] [Transc α] [KPow α]
+
+/-- **`dot`**: the matrix product reported by a sparse kernel (accumulated over the stored entries, row by
+row) is the product of the matrix the kernel stands for with the right-hand side (`n × q`) -/
+theorem views_dot (m : Method α) (X : List (List α)) (k : Nat) (nb : List (List Nat)) (S : Csr α)
+    (h : sparseFromFn m X k nb = some S) (q : Nat) (R : List (List α)) (hR : R.length = X.length)
+    (hq : ∀ r ∈ R, r.length = q) : sDot S q R = dDot (sToDense X.length S) q R :=
+  sparse_dot_eq m X k nb S h q R hR hq
+
+end
+
+example : sDot ([[(0, 0), (1, 0)], [(0, 0), (1, 1), (2, 3)], [(1, 3), (2, 9)]] : Csr ℚ) 2 [[1, 2], [0, 1], [-1, 1]] =
+    dDot (sToDense 3 [[(0, 0), (1, 0)], [(0, 0), (1, 1), (2, 3)], [(1, 3), (2, 9)]]) 2 [[1, 2], [0, 1], [-1, 1]] := by
+  decide +kernel
+
+/-! ## `Kernel::new` and the accessors of `KernelBase` (all calling forms) -/
+
+section
+variable {α : Type} [Field α] [Transc α] [KPow α]
+
+/-- `Kernel::new` succeeds exactly when the kernel is dense or `0 < k < n` -/
+theorem kernel_new_guard (kind : Kind) (m : Method α) (X : List (List α)) (nb : List (List Nat)) :
+    (kernelNew kind m X nb).isSome ↔
+      match kind with
+      | .dense => True
+      | .sparse k => 0 < k ∧ k < X.length := by
+  cases kind with
+  | dense => simp [kernelNew]
+  | sparse k => simp only [kernelNew, Option.isSome_map]; exact sparse_guard m X k nb
+
+/-- **the matrix a kernel stands for holds the kernel function**: entry `(i, j)` of a dense kernel is the
+kernel function of rows `i`, `j`; of a sparse kernel it is that value on the stored pairs (`Stored`: the
+diagonal and the symmetric closure of the returned neighbour relation) and 0 elsewhere -/
+theorem kernel_new_entry (kind : Kind) (m : Method α) (X : List (List α)) (nb : List (List Nat)) (I : Inner α)
+    (h : kernelNew kind m X nb = some I) (i j : Nat) (hi : i < X.length) (hj : j < X.length) :
+    ((kMatrix I)[i]?.bind (·[j]?)) = some
+      (match kind with
+       | .dense => kernelFn m (X.getD i []) (X.getD j [])
+       | .sparse _ => if Stored X.length nb i j then kernelFn m (X.getD i []) (X.getD j []) else 0) := by
+  cases kind with
+  | dense =>
+    simp only [kernelNew, Option.some.injEq] at h
+    subst h
+    simp only [kMatrix]
+    rw [dense_entry m X i j hi hj]
+    simp [List.getD_eq_getElem?_getD, hi, hj]
+  | sparse k =>
+    simp only [kernelNew, Option.map_eq_some_iff] at h
+    obtain ⟨S, hS, rfl⟩ := h
+    simp only [kMatrix]
+    exact sToDense_entry m X k nb S hS i j hi hj
+
+/-- **size, row sums, diagonal, upper triangle and columns reported by a kernel are those of the matrix it
+stands for**, dense or sparse, through whichever wrapper it was built -/
+theorem kernel_new_views (kind : Kind) (m : Method α) (X : List (List α)) (nb : List (List Nat)) (I : Inner α)
+    (h : kernelNew kind m X nb = some I) :
+    kSize I = X.length ∧ kSum I = dSum (kMatrix I) ∧ kDiag I = dDiag (kMatrix I) ∧
+    kUpper I = dUpper (kMatrix I) ∧ ∀ i, i < X.length → kColumn I i = dColumn (kMatrix I) i := by
+  cases kind with
+  | dense =>
+    simp only [kernelNew, Option.some.injEq] at h
+    subst h
+    exact ⟨by simp [kSize, dSize, dense], rfl, rfl, rfl, fun _ _ => rfl⟩
+  | sparse k =>
+    simp only [kernelNew, Option.map_eq_some_iff] at h
+    obtain ⟨S, hS, rfl⟩ := h
+    exact ⟨rfl, views_sum m X k nb S hS, views_diagonal _ S, views_upper _ S,
+      fun i hi => views_column _ S i hi⟩
+
+end
+
+/-- carriers for the concrete example over `ℚ` -/
+local instance ratTransc' : Transc ℚ := ⟨id, id, id⟩
+local instance ratKPow' : KPow ℚ := ⟨fun x _ => x⟩
+
+example : (kernelNew (.sparse 1) (.linear : Method ℚ) [[0], [1], [3]] [[0, 1], [1, 0], [2, 1]]).map kMatrix =
+    some [[0, 0, 0], [0, 1, 3], [0, 3, 9]] := by decide +kernel
+
+
 /-! ## Hierarchical clustering (replay of the `kodama` dendrogram)
 
 `DendroOK steps live ct` is the dendrogram contract (each step merges two different live cluster
@@ -301,15 +384,161 @@ end
 example : replay (Crit.dist 2 : Crit Nat) 4 [⟨0, 1, 1, 2⟩, ⟨2, 3, 2, 2⟩, ⟨4, 5, 5, 4⟩] =
     some [(4, [0, 1]), (2, [2]), (3, [3])] := by decide
 
-/-
-`single_linkage_components` — NOT proved in Lean (graph-connectivity argument over the single-linkage
-contract "step dissimilarity = least distance between the two clusters, steps in non-decreasing
-order"; out of budget).  Full statement:
-  for the single-linkage dendrogram `steps` of a distance matrix `D` on `n` samples and every `d`,
-  two samples lie in the same cluster of `replay (Crit.dist d) n steps` iff they are connected in the
-  graph `{(i, j) | D i j < d}`.
-Covered by the oracle on every single-linkage threshold case (components recomputed with a
-union-find from the kernel's upper triangle), together with the contract checks of `#linkage`.
--/
+/-! ## parameter guard and the unchecked-parameter `transform` -/
+
+section
+variable {α : Type} [LinearOrder α] [Zero α]
+
+/-- the float predicates of the guard read over an ordered field (no NaN, no infinity; "negative" = `< 0`) -/
+def realPreds : FloatPreds α := ⟨fun x => decide (x < 0), fun _ => false, fun _ => false⟩
+
+/-- **the guard accepts exactly the criteria of the property's quantifier**: a cluster count of at least one,
+a non-negative threshold -/
+theorem guard_accepts (crit : Crit α) :
+    checkCrit realPreds crit = true ↔
+      match crit with
+      | .num c => 1 ≤ c
+      | .dist d => 0 ≤ d := by
+  cases crit with
+  | num c => cases c <;> simp [checkCrit]
+  | dist d => simp [checkCrit, realPreds, not_lt]
+
+end
+
+section
+variable {α : Type} [LE α] [DecidableLE α]
+
+/-- a rejected criterion is `InvalidStoppingCondition` whatever the kernel -/
+theorem transform_invalid (fp : FloatPreds α) (crit : Crit α) (n : Nat) (steps : List (Step α))
+    (h : checkCrit fp crit = false) : transform fp crit n steps = .invalid := by
+  simp [transform, h]
+
+/-- **an accepted criterion on a well-formed dendrogram yields a partition** (no error, no panic), for both
+calling forms (kernel, dataset of a kernel) -/
+theorem transform_ok (fp : FloatPreds α) (crit : Crit α) (n : Nat) (steps : List (Step α))
+    (hg : checkCrit fp crit = true) (hd : DendroOK steps (List.range n) n) :
+    ∃ cl, transform fp crit n steps = .ok cl ∧ (members cl).Perm (List.range n) := by
+  have hsome := replay_defined crit n steps hd
+  obtain ⟨cl, hcl⟩ := Option.isSome_iff_exists.mp hsome
+  exact ⟨cl, by simp [transform, hg, hcl], replay_partition crit n steps cl hcl⟩
+
+end
+
+example : ∃ cl, transform (realPreds : FloatPreds ℚ) (Crit.num 2) 4
+    [⟨0, 1, 1, 2⟩, ⟨2, 3, 2, 2⟩, ⟨4, 5, 5, 4⟩] = .ok cl := ⟨_, rfl⟩
+
+example : checkCrit (realPreds : FloatPreds ℚ) (.dist 0) = true ∧ checkCrit (realPreds : FloatPreds ℚ) (.dist (-1)) = false ∧
+    checkCrit (realPreds : FloatPreds ℚ) (.num 0) = false := by
+  refine ⟨?_, ?_, ?_⟩ <;> simp [checkCrit, realPreds]
+
+/-! ## the labels used -/
+
+section
+variable {α : Type} [LE α] [DecidableLE α]
+
+/-- **the labels used are exactly `0 … (number of clusters) - 1`**: every label in the vector is below the
+number of clusters and every such label is carried by some sample (clusters are never empty) -/
+theorem labels_range (crit : Crit α) (n : Nat) (steps : List (Step α)) (cl : Clusters)
+    (h : replay crit n steps = some cl) :
+    (∀ p, p < n → ∃ j, j < cl.length ∧ (assign n cl)[p]? = some j) ∧
+    (∀ j, j < cl.length → ∃ p, p < n ∧ (assign n cl)[p]? = some j) := by
+  obtain ⟨_, hcov, hlab⟩ := labels_partition crit n steps cl h
+  have hp := replay_partition crit n steps cl h
+  have hne : ∀ e ∈ cl, e.2 ≠ [] := by
+    apply replayGo_nonempty crit steps (initClusters n) n cl _ h
+    intro e he
+    simp only [initClusters, List.mem_map] at he
+    obtain ⟨x, _, rfl⟩ := he
+    simp
+  constructor
+  · intro p hpn
+    obtain ⟨j, hj, hm⟩ := hcov p hpn
+    exact ⟨j, hj, hlab j hj p hm⟩
+  · intro j hj
+    obtain ⟨p, hpm⟩ := List.exists_mem_of_ne_nil _ (hne cl[j] (List.getElem_mem hj))
+    have hmem : p ∈ members cl := by
+      simp only [members, List.mem_flatten, List.mem_map]
+      exact ⟨cl[j].2, ⟨cl[j], List.getElem_mem hj, rfl⟩, hpm⟩
+    exact ⟨p, List.mem_range.mp (hp.mem_iff.mp hmem), hlab j hj p hpm⟩
+
+/-- **exactly `min(requested, n)` clusters in the label vector**: with `NumClusters(c)`, `c ≥ 1`, on a
+complete dendrogram the labels used are exactly `0 … min c n - 1` -/
+theorem labels_count (c n : Nat) (steps : List (Step α)) (cl : Clusters)
+    (h : replay (Crit.num c : Crit α) n steps = some cl) (hs : steps.length = n - 1) (hc : 1 ≤ c) :
+    (∀ p, p < n → ∃ j, j < min c n ∧ (assign n cl)[p]? = some j) ∧
+    (∀ j, j < min c n → ∃ p, p < n ∧ (assign n cl)[p]? = some j) := by
+  have := labels_range (Crit.num c : Crit α) n steps cl h
+  rwa [replay_count c n steps cl h hs hc] at this
+
+end
+
+
+/-! ## single linkage -/
+
+section
+variable {α : Type} [LinearOrder α]
+
+/-- **single linkage = connected components of the below-threshold graph.**  For a symmetric distance matrix
+`D` on `n` samples, a complete single-linkage dendrogram of it (`SLOK`: every step merges two live clusters at
+the least distance between their members) with non-decreasing dissimilarities, and every threshold `d`: two
+samples carry the same label after `Distance(d)` exactly when they are connected by a chain of pairs at
+distance `< d`. -/
+theorem single_linkage_components (D : Nat → Nat → α) (hsym : ∀ i j, D i j = D j i) (d : α) (n : Nat)
+    (steps : List (Step α)) (hc : SLOK D steps (initClusters n) n)
+    (hm : steps.Pairwise fun x y => x.dis ≤ y.dis) (cl : Clusters)
+    (h : replay (Crit.dist d) n steps = some cl) (i j : Nat) (hi : i < n) :
+    SameCl cl i j ↔ Conn D d n i j := by
+  have hpart := replay_partition (Crit.dist d) n steps cl h
+  have hnd : (members cl).Nodup := hpart.nodup_iff.mpr List.nodup_range
+  have hmem : ∀ p, p ∈ members cl ↔ p < n := fun p => by rw [hpart.mem_iff, List.mem_range]
+  have hinit : ∀ e ∈ initClusters n, ∀ i ∈ e.2, ∀ j ∈ e.2, Conn D d n i j := by
+    intro e he i hi j hj
+    simp only [initClusters, List.mem_map, List.mem_range] at he
+    obtain ⟨x, _, rfl⟩ := he
+    simp only [List.mem_singleton] at hi hj
+    subst hi; subst hj
+    exact Conn.refl _
+  obtain ⟨hconn, hsep⟩ := replayGo_single D hsym d n steps (initClusters n) n hc hm
+    (fun p hp => by rw [members_init] at hp; exact List.mem_range.mp hp) hinit cl h
+  constructor
+  · rintro ⟨e, he, hie, hje⟩
+    exact hconn e he i hie j hje
+  · intro hcn
+    have key : ∀ a b, Conn D d n a b → ((a < n ↔ b < n) ∧ (a < n → SameCl cl a b)) := by
+      intro a b hab
+      induction hab with
+      | refl a =>
+        refine ⟨Iff.rfl, fun ha => ?_⟩
+        obtain ⟨e, he, hae⟩ := mem_members.mp ((hmem a).mpr ha)
+        exact ⟨e, he, hae, hae⟩
+      | edge a b ha hb hlt =>
+        refine ⟨⟨fun _ => hb, fun _ => ha⟩, fun _ => ?_⟩
+        by_contra hne
+        exact absurd (hsep a b ((hmem a).mpr ha) ((hmem b).mpr hb) hne) (not_le.mpr hlt)
+      | symm _ ih =>
+        refine ⟨ih.1.symm, fun hb => ?_⟩
+        obtain ⟨e, he, h1, h2⟩ := ih.2 (ih.1.mpr hb)
+        exact ⟨e, he, h2, h1⟩
+      | trans _ _ ih1 ih2 =>
+        exact ⟨ih1.1.trans ih2.1, fun ha => sameCl_trans hnd (ih1.2 ha) (ih2.2 (ih1.1.mp ha))⟩
+    exact (key i j hcn).2 hi
+
+end
+
+/-- three samples on a line at 0, 1, 3: `D i j = |x_i - x_j|` -/
+def exD (i j : Nat) : Nat :=
+  let x := [0, 1, 3]
+  (x.getD i 0 - x.getD j 0) + (x.getD j 0 - x.getD i 0)
+
+example : SLOK exD ([⟨0, 1, 1, 2⟩, ⟨2, 3, 2, 3⟩] : List (Step Nat)) (initClusters 3) 3 := by
+  refine SLOK.cons _ _ _ _ [0] [(1, [1]), (2, [2])] [1] [(2, [2])] (by decide) (by decide)
+    ⟨0, by simp, 1, by simp, by decide⟩ (by decide) ?_
+  refine SLOK.cons _ _ _ _ [2] [(3, [0, 1])] [0, 1] [] (by decide) (by decide)
+    ⟨2, by simp, 1, by simp, by decide⟩ (by decide) ?_
+  exact SLOK.nil _ _ (by decide)
+
+example : replay (Crit.dist 2 : Crit Nat) 3 [⟨0, 1, 1, 2⟩, ⟨2, 3, 2, 3⟩] = some [(3, [0, 1]), (2, [2])] := by
+  decide
+
 
 end LinfaSpec.Props.C06
